@@ -489,6 +489,8 @@ class TextNmea2000Gateway(AsyncIOClient):
         by the _receive_loop() method.
         """
         data = await self.reader.readline()
+        if not data:
+            raise ConnectionError("Connection closed by the gateway (end of stream).")
         self.logger.debug(f"Received: {data.hex()}")
         line = data.decode('utf-8', errors='ignore').strip()
         try:
@@ -694,6 +696,8 @@ class WaveShareNmea2000Gateway(AsyncIOClient):
         It's called repeatedly by the _receive_loop() method.
         """
         data = await self.reader.read(100)
+        if not data:
+            raise ConnectionError("Serial connection closed (end of stream).")
         self.logger.debug(f"Received: {data.hex()}")
         assert self._buffer is not None
         self._buffer.extend(data)
